@@ -1,11 +1,74 @@
 """C12 - boot status and fallback queries follow the update lifecycle.  Proof: props/C12.v.
 Correspondence + oracle: the ring closure (both queries compared with the lifecycle ghost in every reachable state)."""
-from . import core, c05
+import random
+from . import core, c05, ring, session
+
+
+def static_part(chk):
+    """the two queries are functions of the headers alone: arrangements of legal headers at arbitrary ring positions (runs of
+       consecutive numbers at any rotation with gaps, and arbitrary distinct numbers), 4 / 5 / 6 slots, at most one firmware image
+       awaiting the bootloader; parity headers in the states a parity slot can take"""
+    rnd = random.Random(chk.seed + 12)
+    FW = [("IP", "IP", "UN"), ("AB", "IP", "UN"), ("CO", "IP", "UN"), ("CO", "CO", "UN"), ("CO", "CO", "SU"), ("CO", "CO", "SU"), ("CO", "CO", "SU"), ("CO", "CO", "US")]
+    PA = [("IP", "IP", "UN"), ("AB", "IP", "UN"), ("CO", "IP", "UN")]
+    cases, want = [], []
+    for _ in range(900 if chk.quick() else 20000):
+        ns = rnd.choice([4, 5, 6])
+        g = ring.Geo(ns)
+        if rnd.random() < 0.6:
+            s0 = rnd.choice([0, 1, 100, 0x7FFFFFF0, 0xFFFFFF00]); p = rnd.randrange(ns)
+            seqs = {(p + k) % ns: s0 + k + (rnd.randint(0, 2) if rnd.random() < 0.2 else 0) * ns for k in range(ns)}
+        else:
+            vals = rnd.sample(range(0, 4000), ns); seqs = dict(enumerate(vals))
+        pending = False
+        hs = {}
+        for i in range(ns):
+            if rnd.random() < 0.2:
+                continue
+            if rnd.random() < 0.6:
+                st = rnd.choice(FW)
+                if st in (("CO", "IP", "UN"), ("CO", "CO", "UN")):
+                    if pending: st = ("CO", "CO", "SU")
+                    pending = True
+                hs[i] = ("F", seqs[i]) + st
+            else:
+                hs[i] = ("P", seqs[i]) + rnd.choice(PA)
+        ops = ["raw %x %s" % (i * g.slot, ring.hdr_bytes(h, g.cap).hex()) for i, h in sorted(hs.items())] + ["bl", "fb"]
+        cases.append("%d %d %d|%s" % (ns, g.slot, g.blk, ";".join(ops)))
+        conf = [(h[1], i) for i, h in hs.items() if h[0] == "F" and h[2:] == ("CO", "CO", "SU")]
+        bl = "idle"
+        for i, h in sorted(hs.items()):
+            if h[0] == "F" and h[2:] == ("CO", "IP", "UN"): bl = "inc:%d" % i
+            if h[0] == "F" and h[2:] == ("CO", "CO", "UN"): bl = "fail:%d" % i
+        want.append((bl, "some:%d" % max(conf)[1] if conf else "none", hs))
+    fvh = core.build_harness("matrix")
+    impl = core.run_stream(fvh, "session", cases)
+    nt = []
+    for c, raw, (wbl, wfb, hs) in zip(cases, impl, want):
+        out = session.parse_out(raw)
+        if len(out) < 2:
+            chk.failures.append(core.Failure("harness produced no / truncated result", "session", "matrix", c, raw, key="crash")); break
+        bl, fb = out[-2][0], out[-1][0]
+        if bl != wbl:
+            chk.failures.append(core.Failure("bl_boot_status = %s, the headers %s prescribe %s" % (bl, hs, wbl), "session", "matrix", c, raw[:1500], key="c12"))
+        elif fb != wfb:
+            chk.failures.append(core.Failure("fallback_firmware = %s, the most recently confirmed image (highest sequence number among confirmed firmware headers %s) is %s" % (fb, hs, wfb), "session", "matrix", c, raw[:1500], key="c12"))
+        nt.append(c)
+        if len(chk.failures) > 10: break
+    chk.note_cases("static-arrangements", cases, nt, sample_n=1, dist={"cases": len(cases)})
+    try:
+        fvm = core.build_fvm()
+        chk.correspond("static-arrangements", "matrix", cases, impl, core.run_stream(fvm, "session", cases))
+    except core.BuildError as e:
+        chk.broken.append(("correspondence", "static-arrangements[model build]", {"detail": str(e)[-1500:]}))
+
 
 def run(chk):
     chk.prove()
     c05.closure_part(chk, ("c12",))
+    static_part(chk)
+    chk.cov["exhaustive"] = False          # the closure is exhaustive where it closes; the static arrangements are sampled
     return chk.finish(level="proof",
-        rule="ring-closure (see C05): in every reachable (headers, ghost) state bl_boot_status and fallback_firmware of the real SlotManager are compared with the abstract lifecycle; non-trivial/distinct = distinct states",
+        rule="static-arrangements: legal headers at arbitrary positions of 4 / 5 / 6-slot rings (rotated runs with gaps, arbitrary distinct numbers; at most one firmware image awaiting the bootloader; parity headers in progress / aborted / complete): both queries vs the answer the headers prescribe; ring-closure (see C05): in every reachable (headers, ghost) state bl_boot_status and fallback_firmware of the real SlotManager are compared with the abstract lifecycle; non-trivial/distinct = distinct states",
         trusted=core.TRUSTED_COMMON + ["C12: proviso enforced along the whole history: completion is only explored when no other image awaits the bootloader",
                                         "an erased slot no longer holds an update (start and recovery's remediation may erase an awaiting-copy image; DESIGN.md section 8)"])
